@@ -395,6 +395,18 @@ mod verif_c02 {
         d
     }
 
+    fn same_at(actor: &KeyspaceActor<ModelStore>, before: &[((u8, u64), Option<(u64, bool)>); KEYS], key: Key) -> bool {
+        let now = snapshot(actor);
+        let mut k = 0;
+        while k < KEYS {
+            if k as Key == key && now[k] != before[k] {
+                return false;
+            }
+            k += 1;
+        }
+        true
+    }
+
     fn any_source() -> usize {
         if kani::any() {
             1
@@ -415,8 +427,17 @@ mod verif_c02 {
         let before = snapshot(&actor);
         let key = any_key();
         let ts = any_ts();
+        let admitted = actor.state.will_apply(key, ts);
         let msg = Set { source: any_source(), doc: shared_doc(key, ts), ctx: None, _marker: PhantomData };
         let res = run(actor.on_set(msg));
+        if res.is_ok() {
+            let applied = view2(&actor.state, key) == (1, ts.as_u64());
+            if admitted {
+                assert!(applied, "a completed put is visible on the node when the set admits it (newer than what is held, not below the cut-off)");
+            } else {
+                assert!(same_at(&actor, &before, key), "a request the set does not admit changes neither side");
+            }
+        }
         assert!(agree(&actor), "after a put request (successful or failed) set and store describe the same thing");
         assert!(inv2(&actor.state));
         let after = snapshot(&actor);
@@ -449,8 +470,17 @@ mod verif_c02 {
         let before = snapshot(&actor);
         let key = any_key();
         let ts = any_ts();
+        let admitted = actor.state.will_apply(key, ts);
         let msg = Del { source: any_source(), doc: DocumentMetadata::new(key, ts), _marker: PhantomData };
         let res = run(actor.on_del(msg));
+        if res.is_ok() {
+            let applied = view2(&actor.state, key) == (2, ts.as_u64());
+            if admitted {
+                assert!(applied, "a completed delete is visible on the node when the set admits it");
+            } else {
+                assert!(same_at(&actor, &before, key), "a request the set does not admit changes neither side");
+            }
+        }
         assert!(agree(&actor), "after a delete request (successful or failed) set and store describe the same thing");
         assert!(inv2(&actor.state));
         let after = snapshot(&actor);
@@ -561,6 +591,18 @@ mod verif_c02 {
     fn c02_on_purge_step() {
         let mut actor = agreeing_actor();
         let before = snapshot(&actor);
+        // which tombstones are below their origin's purge cut-off before the request
+        let mut purgeable = [false; KEYS];
+        let mut k = 0;
+        while k < KEYS {
+            let (kind, t) = before[k].0;
+            if kind == 2 {
+                if let Some(c) = datacake_crdt::verif_api::cutoff2(&actor.state, (t & 0xFF) as u8) {
+                    purgeable[k] = t < c.as_u64();
+                }
+            }
+            k += 1;
+        }
         let res = run(actor.on_purge_tombstones(PurgeDeletes(PhantomData)));
         assert!(agree(&actor), "after a purge (complete, partial or failed) set and store describe the same thing");
         assert!(inv2(&actor.state));
@@ -569,8 +611,16 @@ mod verif_c02 {
         let mut k = 0;
         while k < KEYS {
             match (before[k].0 .0, after[k].0 .0) {
-                (2, 0) => purged += 1,
-                _ => assert!(after[k] == before[k], "a purge only ever removes tombstones, on both sides"),
+                (2, 0) => {
+                    assert!(purgeable[k], "only tombstones below their origin's cut-off are purged");
+                    purged += 1
+                },
+                _ => {
+                    assert!(after[k] == before[k], "a purge only ever removes tombstones, on both sides");
+                    if res.is_ok() {
+                        assert!(!purgeable[k], "a completed purge leaves no tombstone below its origin's cut-off behind");
+                    }
+                },
             }
             k += 1;
         }
@@ -591,8 +641,17 @@ mod verif_c02 {
         let t1 = any_ts();
         let mut docs = crate::core::DocVec::<DocumentMetadata>::new();
         docs.push(DocumentMetadata::new(k1, t1));
+        let admitted = actor.state.will_apply(k1, t1);
         let msg = MultiDel { source: any_source(), docs, _marker: PhantomData };
         let res = run(actor.on_multi_del(msg));
+        if res.is_ok() {
+            let applied = view2(&actor.state, k1) == (2, t1.as_u64());
+            if admitted {
+                assert!(applied, "a completed bulk delete makes the removal visible when the set admits it (repair: nothing left to fetch)");
+            } else {
+                assert!(same_at(&actor, &before, k1), "a request the set does not admit changes neither side");
+            }
+        }
         assert!(agree(&actor), "after a bulk delete (complete or failed) set and store describe the same thing");
         assert!(inv2(&actor.state));
         let after = snapshot(&actor);
@@ -622,8 +681,17 @@ mod verif_c02 {
         let t1 = any_ts();
         let mut docs = crate::core::DocVec::<Document>::new();
         docs.push(shared_doc(k1, t1));
+        let admitted = actor.state.will_apply(k1, t1);
         let msg = MultiSet { source: any_source(), docs, ctx: None, _marker: PhantomData };
         let res = run(actor.on_multi_set(msg));
+        if res.is_ok() {
+            let applied = view2(&actor.state, k1) == (1, t1.as_u64());
+            if admitted {
+                assert!(applied, "a completed bulk put makes the document visible when the set admits it (repair: nothing left to fetch)");
+            } else {
+                assert!(same_at(&actor, &before, k1), "a request the set does not admit changes neither side");
+            }
+        }
         assert!(agree(&actor), "after a bulk put (complete or failed) set and store describe the same thing");
         assert!(inv2(&actor.state));
         let after = snapshot(&actor);
